@@ -118,9 +118,14 @@ SUBCHECKS = [
     SubCheck("always_returns", evaluate, strategy=cases, examples=(4000, 40000), shards=(16, 16),
              floors={"first_nucleotide_not_an_arc": 200, "kind:last_symbol": 200, "kind:last_window": 200,
                      "kind:length_k": 200, "kind:many_sites": 300, "not_walk": 1500}, rule=RULE, timeout=120.0),
+    SubCheck("fuzz_always_returns", evaluate, fuzz=("C10", (4000, 250000)), shards=(2, 8),
+             rule="atheris/libFuzzer campaign: bytes are decoded into (graph from a pool of 64 arc subsets, start "
+                  "vertex, string, options) and judged by the same oracle as the Hypothesis sub-check; coverage "
+                  "feedback from dsw only; even shards start from an empty corpus, odd shards from 48 random inputs",
+             timeout=3600.0),
 ]
 
-TECHNIQUE = ("property-based testing (Hypothesis) with termination decided by two deterministic budgets: an accessor "
+TECHNIQUE = ("property-based testing (Hypothesis) and coverage-guided fuzzing (atheris) with termination decided by two deterministic budgets: an accessor "
              "look-up counting proxy and a line-event step counter over the library's frames")
 LEVEL_TEXT = ("Generated search, 4,000 / 40,000 ACGT strings of length >= k on arbitrary, well-formed and generated "
               "graphs with forced error placements (first nucleotide, last window, last nucleotide, length exactly k, "
